@@ -28,6 +28,15 @@ pub static CTX: OnceLock<Ctx> = OnceLock::new();
 /// Called from a watchdog thread when a call into rivia does not return: emit what we have
 /// (the hang violation was already recorded) and return the exit code for the process.
 pub fn hang_exit(_prop: &str, sig: &str) -> i32 {
+    // several watchdog threads can get here at once: the first one reports, the others wait for the exit
+    static ENTERED: std::sync::atomic::AtomicBool = std::sync::atomic::AtomicBool::new(false);
+    if ENTERED.swap(true, std::sync::atomic::Ordering::SeqCst) {
+        loop {
+            std::thread::sleep(std::time::Duration::from_secs(3600));
+        }
+    }
+    // let concurrent reporters finish recording their violation before the summary is written
+    std::thread::sleep(std::time::Duration::from_millis(300));
     let ctx = match CTX.get() {
         Some(c) => c,
         None => return 1,
